@@ -215,6 +215,14 @@ func VerifConnCounts(s *Server) (count int, inMap int) {
 
 // ---- connection loop on a caller-supplied connection (C11, C19: peers with chosen addresses, several
 // identities on one connection) ----
+// VerifServeConnTimeouts runs the real record-marking connection loop on conn with the given read/write timeouts
+// instead of the built-in 30 s (C28: a connection in continuous use outlives any number of read timeouts).
+func VerifServeConnTimeouts(s *Server, h *NFSProcedureHandler, conn net.Conn, readTimeout, writeTimeout time.Duration) {
+	rmConn := NewRecordMarkingConn(conn, conn)
+	cio := &recordMarkingConnIO{server: s, rmConn: rmConn}
+	s.handleConnectionLoop(conn, h, cio, readTimeout, writeTimeout)
+}
+
 func VerifServeConn(s *Server, h *NFSProcedureHandler, conn net.Conn, recordMarking bool) {
 	if recordMarking {
 		s.handleConnectionWithRecordMarking(conn, h)
